@@ -21,6 +21,7 @@ import (
 	"math/big"
 	"math/rand"
 	"net"
+	"net/netip"
 	"strings"
 )
 
@@ -214,6 +215,16 @@ func compress6(v net.IP) string {
 
 // OddV4 writes an IPv4 address in a notation inet_aton accepts but the dotted-quad grammar does not.
 func OddV4(ip net.IP, variant int) string {
+	s := oddV4(ip, variant)
+	// some notations coincide with the canonical dotted quad for some addresses (223.255.255.255 zero-padded to three
+	// digits is itself): the plain decimal number never does
+	if _, err := netip.ParseAddr(s); err == nil {
+		return oddV4(ip, 0)
+	}
+	return s
+}
+
+func oddV4(ip net.IP, variant int) string {
 	v := ip.To4()
 	n := binary.BigEndian.Uint32(v)
 	switch variant % 7 {
